@@ -582,6 +582,7 @@ type Assembler struct {
 // This sets some sane defaults for the assembler options,
 // see DefaultAssemblerOptions for details.
 func NewAssembler(pool *StreamPool) *Assembler {
+	verifYieldRW(6, &pool.mu, true)
 	pool.mu.Lock()
 	pool.users++
 	pool.mu.Unlock()
@@ -654,6 +655,7 @@ func (a *Assembler) AssembleWithContext(netFlow gopacket.Flow, t *layers.TCP, ac
 		}
 		return
 	}
+	verifYieldM(7, &conn.mu)
 	conn.mu.Lock()
 	defer conn.mu.Unlock()
 	if half.lastSeen.Before(timestamp) {
@@ -1268,6 +1270,7 @@ func (a *Assembler) FlushWithOptions(opt FlushOptions) (flushed, closed int) {
 	flushes := 0
 	for _, conn := range conns {
 		remove := false
+		verifYieldM(8, &conn.mu)
 		conn.mu.Lock()
 		for _, half := range []*halfconnection{&conn.s2c, &conn.c2s} {
 			flushed, closed := a.flushClose(conn, half, opt.T, opt.TC)
@@ -1322,6 +1325,7 @@ func (a *Assembler) FlushAll() (closed int) {
 	conns := a.connPool.connections()
 	closed = len(conns)
 	for _, conn := range conns {
+		verifYieldM(9, &conn.mu)
 		conn.mu.Lock()
 		for _, half := range []*halfconnection{&conn.s2c, &conn.c2s} {
 			for !half.closed {
